@@ -214,8 +214,25 @@ func (s *solo) step() {
 		net.Send(g, s.me, msgs...)
 	case x < 34:
 		s.quorum(tmproto.PrevoteType, h, round+int32(r.Intn(3))-1, s.pickBlock(h), r.Intn(4) != 0)
-	case x < 48:
+	case x < 46:
 		s.quorum(tmproto.PrecommitType, h, round+int32(r.Intn(3))-1, s.pickBlock(h), r.Intn(4) != 0)
+	case x < 52:
+		// mixed votes: more than 2/3 of the power votes, but split over two targets so that neither has a quorum
+		// (drives the wait steps: "2/3 any" without a polka / commit)
+		typ := tmproto.PrevoteType
+		if r.Intn(2) == 0 {
+			typ = tmproto.PrecommitType
+		}
+		vr := round + int32(r.Intn(2))
+		a, b := s.pickBlock(h), s.pickBlock(h)
+		for i, g := range s.stubs(rs.Validators) {
+			bid := a
+			if i%2 == 1 {
+				bid = b
+			}
+			net.Send(g, s.me, &cs.VoteMessage{Vote: net.SignVote(rs.Validators, g, typ, h, vr, bid, s.now)})
+		}
+		net.Stats["solo_mixed_votes"]++
 	case x < 58:
 		// single vote, any nearby round (late votes from earlier rounds included)
 		vr := round - int32(r.Intn(4)) + int32(r.Intn(3))
@@ -323,7 +340,7 @@ func runSolo(c *verdict.Ctx, idx int, tmp string) {
 	c.Max("solo.max_round", int64(maxRound))
 	c.Count("solo.decisions", int64(net.Stats["decisions"]))
 	for k, v := range net.Stats {
-		if len(k) > 11 && k[:11] == "solo_quorum" {
+		if len(k) > 5 && k[:5] == "solo_" {
 			c.Count(k, int64(v))
 		}
 	}
